@@ -51,7 +51,8 @@ reg(Prop(
          'of long-lived objects as regular-register reads, and the levels of all locations read after the threads finished must be explained by one '
          'sequential order; a quarter of these histories are creation storms (4-6 threads create an object for the same missing name at the same '
          'barrier), and after everything was judged a set exactly on the location of every created object must reach all objects created for it. TSan: a case is one round of 2-6 threads x 50-199 mixed operations (half of the rounds barrier-phased); every '
-         'ThreadSanitizer report with an fcppt frame is a violation (reports are deduplicated). distinct = history text / interleaving signature / round seed.',
+         'ThreadSanitizer report with an fcppt frame is a violation (reports are deduplicated). distinct = history text / interleaving signature / round seed.'
+         ' A third of the sequential histories use level streams without a formatter or with a custom one (per level); the emitted text is judged for each kind.',
     assumptions=COMMON_ASSUMPTIONS + [
         'operation A precedes B only if A.return + 2us < B.call (clock granularity can only remove constraints)',
         'lock-free reads are judged as regular registers, deliberately weaker than linearizability: set updates a subtree node by node',
